@@ -1,5 +1,7 @@
 use std::path::{Path, PathBuf};
 use std::io::ErrorKind;
+use std::fs::{File, OpenOptions};
+use std::time::SystemTime;
 // ---- trusted prelude: the OS side (std::path, std::fs) is opaque; only the shape of the path handed to the OS is specified
 #[verifier::external_type_specification]
 #[verifier::external_body]
@@ -28,3 +30,44 @@ pub assume_specification [std::fs::Metadata::is_dir] (m: &std::fs::Metadata) -> 
 pub assume_specification<T, E> [std::result::Result::<T, E>::unwrap_or] (r: std::result::Result<T, E>, d: T) -> (v: T)
     where E: std::marker::Destruct, T: std::marker::Destruct
     ensures v == (match r { Ok(x) => x, Err(_) => d });
+#[verifier::external_type_specification]
+#[verifier::external_body]
+pub struct ExFile(std::fs::File);
+#[verifier::external_type_specification]
+#[verifier::external_body]
+pub struct ExOpenOptions(std::fs::OpenOptions);
+/// which primitive produced a handle: the abstract "open mode" of a File (create = truncating create)
+pub enum OpenMode { Read, CreateTruncate, Append }
+pub uninterp spec fn file_mode(f: std::fs::File) -> OpenMode;
+pub uninterp spec fn file_path(f: std::fs::File) -> PathBuf;
+pub uninterp spec fn oo_append(o: std::fs::OpenOptions) -> bool;
+pub uninterp spec fn oo_plain(o: std::fs::OpenOptions) -> bool;
+pub uninterp spec fn path_of<P>(p: P) -> PathBuf;
+pub broadcast axiom fn axiom_path_of_pathbuf(p: PathBuf) ensures #[trigger] path_of::<PathBuf>(p) == p;
+#[verifier::allow(undeclared_external_trait)]
+pub assume_specification<P: AsRef<Path>> [std::fs::File::open] (p: P) -> (r: std::io::Result<std::fs::File>)
+    ensures r is Ok ==> file_mode(r->Ok_0) is Read && file_path(r->Ok_0) == path_of(p);
+#[verifier::allow(undeclared_external_trait)]
+pub assume_specification<P: AsRef<Path>> [std::fs::File::create] (p: P) -> (r: std::io::Result<std::fs::File>)
+    ensures r is Ok ==> file_mode(r->Ok_0) is CreateTruncate && file_path(r->Ok_0) == path_of(p);
+pub assume_specification [std::fs::OpenOptions::new] () -> (r: std::fs::OpenOptions)
+    ensures oo_plain(r) && !oo_append(r);
+pub assume_specification [std::fs::OpenOptions::append] (o: &mut std::fs::OpenOptions, append: bool) -> (r: &mut std::fs::OpenOptions)
+    ensures oo_append(*final(o)) == append, *final(r) == *final(o), oo_plain(*final(o)) == oo_plain(*old(o));
+#[verifier::allow(undeclared_external_trait)]
+pub assume_specification<P: AsRef<Path>> [std::fs::OpenOptions::open] (o: &std::fs::OpenOptions, p: P) -> (r: std::io::Result<std::fs::File>)
+    ensures r is Ok && oo_append(*o) && oo_plain(*o) ==> file_mode(r->Ok_0) is Append && file_path(r->Ok_0) == path_of(p);
+pub assume_specification [std::path::Path::exists] (p: &Path) -> (r: bool);
+pub assume_specification [std::path::Path::metadata] (p: &Path) -> (r: std::io::Result<std::fs::Metadata>);
+pub assume_specification [std::fs::Metadata::len] (m: &std::fs::Metadata) -> (r: u64);
+pub assume_specification [std::fs::Metadata::modified] (m: &std::fs::Metadata) -> (r: std::io::Result<SystemTime>);
+pub assume_specification [std::fs::Metadata::created] (m: &std::fs::Metadata) -> (r: std::io::Result<SystemTime>);
+pub assume_specification [std::fs::Metadata::accessed] (m: &std::fs::Metadata) -> (r: std::io::Result<SystemTime>);
+#[verifier::allow(undeclared_external_trait)]
+pub assume_specification<P: AsRef<Path>> [std::fs::remove_file] (p: P) -> (r: std::io::Result<()>);
+#[verifier::allow(undeclared_external_trait)]
+pub assume_specification<P: AsRef<Path>> [std::fs::remove_dir] (p: P) -> (r: std::io::Result<()>);
+#[verifier::allow(undeclared_external_trait)]
+pub assume_specification<P: AsRef<Path>, Q: AsRef<Path>> [std::fs::copy] (p: P, q: Q) -> (r: std::io::Result<u64>);
+#[verifier::allow(undeclared_external_trait)]
+pub assume_specification<P: AsRef<Path>, Q: AsRef<Path>> [std::fs::rename] (p: P, q: Q) -> (r: std::io::Result<()>);
